@@ -32,12 +32,17 @@ def strip(card):
     return tuple(c)
 
 
+def _g(o, name, default=None):
+    return getattr(o, name, default)
+
+
 def snapshot(c, full=True):
-    """Observable state.  full=True adds what refusal-atomicity must preserve exactly (log, ranking order,
-    internal flags exposed as public attributes, to_matrix)."""
+    """Observable state.  full=True adds what refusal-atomicity must preserve exactly (log, ranking order, public
+    flags, to_matrix).  Attributes are read defensively so a renamed internal is not a harness error."""
     js = sorted(c.jumpers, key=lambda j: j.bib)
     per = tuple((j.bib, tuple(j.attempts_by_height) if full else strip(j.attempts_by_height), str(j.highest_cleared),
-                 j.place, j.eliminated, j.dismissed, j.round_lim, j.consecutive_failures) for j in js)
+                 j.place, _g(j, 'eliminated'), _g(j, 'dismissed'), _g(j, 'round_lim'), _g(j, 'consecutive_failures'))
+                for j in js)
     base = (c.state, tuple(str(h) for h in c.heights), str(c.bar_height), per)
     if not full:
         return base
@@ -46,15 +51,25 @@ def snapshot(c, full=True):
     except Exception as e:
         mat = 'to_matrix raised %s' % type(e).__name__
     return base + (tuple(repr(a) for a in c.actions), tuple(j.bib for j in c.ranked_jumpers),
-                   tuple(j.highest_cleared_index for j in js), mat, tuple(c.trials) == tuple(c.trials))
+                   tuple(_g(j, 'highest_cleared_index') for j in js), mat, tuple(c.trials) == tuple(c.trials))
+
+
+def _simple(v):
+    if isinstance(v, (str, int, float, bool, Decimal, type(None))):
+        return v
+    if isinstance(v, (list, tuple)):
+        return tuple(_simple(x) for x in v)
+    if isinstance(v, dict):
+        return tuple(sorted((repr(k), _simple(x)) for k, x in v.items()))
+    return getattr(v, 'bib', type(v).__name__)
 
 
 def dedup_key(c):
-    """State identity for BFS de-duplication: everything that can influence future behaviour."""
+    """State identity for BFS de-duplication: every attribute of the competition and its athletes (generic over
+    attribute names; the action log is left out - it grows with every call and never influences behaviour)."""
     js = sorted(c.jumpers, key=lambda j: j.bib)
-    return (c.state, tuple(c.heights), tuple(
-        (j.bib, tuple(j.attempts_by_height), j.highest_cleared, j.highest_cleared_index, j._place, j.eliminated,
-         j.dismissed, j.round_lim, j.consecutive_failures) for j in js), tuple(j.bib for j in c.ranked_jumpers))
+    comp = tuple(sorted((k, _simple(v)) for k, v in vars(c).items() if k not in ('actions', 'jumpers_by_bib', 'jumpers')))
+    return (comp, tuple(tuple(sorted((k, _simple(v)) for k, v in vars(j).items())) for j in js))
 
 
 _SCALARS = (str, int, float, bool, Decimal, tuple, type(None))
